@@ -267,11 +267,24 @@ func fieldTypeName(field protoreflect.FieldDescriptor) (string, error) {
 }
 
 func contextRefName(contextOfCall protoreflect.Descriptor, refElement protoreflect.Descriptor) (string, error) {
+	name := shortRefName(contextOfCall, refElement)
+	if resolveInScope(contextOfCall, name) != refElement.FullName() {
+		// the short name is captured on the way out through the scopes (a
+		// nested type or a package component of the same name comes first),
+		// only the absolute name says what is meant.
+		return "." + string(refElement.FullName()), nil
+	}
+	return name, nil
+}
+
+// shortRefName is the name of refElement with the scopes it shares with the
+// referring element left off.
+func shortRefName(contextOfCall protoreflect.Descriptor, refElement protoreflect.Descriptor) string {
 
 	if contextOfCall.ParentFile().Package() != refElement.ParentFile().Package() {
 		// if the thing the field references is in a different package, then the
 		// full reference is used
-		return string(refElement.FullName()), nil
+		return string(refElement.FullName())
 	}
 
 	refPath := pathToPackage(refElement)
@@ -286,7 +299,94 @@ func contextRefName(contextOfCall protoreflect.Descriptor, refElement protorefle
 		refPath = refPath[1:]
 	}
 
-	return strings.Join(refPath, "."), nil
+	return strings.Join(refPath, ".")
+}
+
+// resolveInScope resolves a relative type name the way protobuf does for a
+// reference written inside contextOfCall: the first component is looked up in
+// the innermost scope first, then outwards; where it is found the rest of the
+// name is appended. Returns "" when the first component is found nowhere.
+func resolveInScope(contextOfCall protoreflect.Descriptor, name string) protoreflect.FullName {
+	first, _, _ := strings.Cut(name, ".")
+	file := contextOfCall.ParentFile()
+	scope := contextOfCall.FullName()
+	if _, isFile := contextOfCall.(protoreflect.FileDescriptor); isFile {
+		scope = file.Package()
+	}
+	for {
+		candidate := protoreflect.FullName(first)
+		if scope != "" {
+			candidate = scope.Append(protoreflect.Name(first))
+		}
+		if symbolVisible(file, candidate) {
+			if scope == "" {
+				return protoreflect.FullName(name)
+			}
+			return protoreflect.FullName(string(scope) + "." + name)
+		}
+		if scope == "" {
+			return ""
+		}
+		scope = scope.Parent()
+	}
+}
+
+// symbolVisible reports whether name is a package, a package prefix or a
+// declared element in the file or in one of the files it imports.
+func symbolVisible(file protoreflect.FileDescriptor, name protoreflect.FullName) bool {
+	if symbolInFile(file, name) {
+		return true
+	}
+	imports := file.Imports()
+	for i := 0; i < imports.Len(); i++ {
+		if symbolInFile(imports.Get(i).FileDescriptor, name) {
+			return true
+		}
+	}
+	return false
+}
+
+func symbolInFile(file protoreflect.FileDescriptor, name protoreflect.FullName) bool {
+	pkg := file.Package()
+	if pkg == name || strings.HasPrefix(string(pkg), string(name)+".") {
+		return true // a package, or the prefix of one, is a scope
+	}
+	rel := string(name)
+	if pkg != "" {
+		if !strings.HasPrefix(rel, string(pkg)+".") {
+			return false
+		}
+		rel = strings.TrimPrefix(rel, string(pkg)+".")
+	}
+	type container interface {
+		Messages() protoreflect.MessageDescriptors
+		Enums() protoreflect.EnumDescriptors
+		Extensions() protoreflect.ExtensionDescriptors
+	}
+	var scope container = file
+	parts := strings.Split(rel, ".")
+	for idx, part := range parts {
+		last := idx == len(parts)-1
+		partName := protoreflect.Name(part)
+		if msg := scope.Messages().ByName(partName); msg != nil {
+			if last {
+				return true
+			}
+			scope = msg
+			continue
+		}
+		if !last {
+			return false
+		}
+		if scope.Enums().ByName(partName) != nil || scope.Extensions().ByName(partName) != nil {
+			return true
+		}
+		if asFile, ok := scope.(protoreflect.FileDescriptor); ok && asFile.Services().ByName(partName) != nil {
+			return true
+		}
+		return false
+	}
+	return false
 }
 
 func pathToPackage(refElement protoreflect.Descriptor) []string {
